@@ -224,7 +224,7 @@ def c01_typed(ctx, dim, form):
                and isinstance(crd.to_voxel_center(cs), kinds[1]) and isinstance(ctr.to_voxel(cs), kinds[0]))
 
 
-@ob("C01.history", cases=product_cases(dim=(1, 2, 3), change=("origin-attr", "update_metadata", "reset_origin", "dimensions")), mods=MODS, funcs=FUNCS + ["darsia.image.image:Image.coordinatesystem", "darsia.image.image:Image.reset_origin", "darsia.image.image:Image.update_metadata"],
+@ob("C01.history", cases=product_cases(dim=(1, 2, 3), change=("origin-attr", "update_metadata", "reset_origin", "dimensions", "array-replaced")), mods=MODS, funcs=FUNCS + ["darsia.image.image:Image.coordinatesystem", "darsia.image.image:Image.reset_origin", "darsia.image.image:Image.update_metadata"],
     cite="For every image ... voxel index zero maps to the image origin, the opposite corner is displaced from it by exactly the physical dimensions (whatever was asked of the image before)",
     note="the coordinate system handed out by an image is a function of its CURRENT metadata: accessed, metadata changed in place, accessed again")
 def c01_history(ctx, dim, change):
@@ -243,6 +243,12 @@ def c01_history(ctx, dim, change):
     elif change == "reset_origin":
         img.reset_origin()
         org = expected_origin(dim, d, None)
+    elif change == "array-replaced":
+        # the pixel array is replaced in place by one of another shape (what a shape-changing correction applied with overwrite does): the voxel
+        # counts every derived quantity uses are those of the CURRENT array
+        n = ctx.ints("m", dim, lo=1, sample=(1, 6))
+        img.img = ctx.shape_array(list(n))
+        org = list(o)
     else:
         img.update_metadata(dimensions=list(d2))
         dims, org = list(d2), list(o)
